@@ -271,7 +271,8 @@ def judge_case(ctx, cfg, nserv, events):
         evictions, bypass = run_history.extra
         why = None
         for name, log in contacts.items():
-            ok = ctx.oracle.call(1, cfg[0], cfg[1], cfg[2], [(t, o) for t, o in log])[1]
+            # times may be fractions of a second (multiples of 1/8 here): the window oracle is stated over integers, in any unit
+            ok = ctx.oracle.call(1, cfg[0], int(cfg[1] * 8), int(cfg[2] * 8), [(int(t * 8), o) for t, o in log])[1]
             if not ok:
                 why = "server %s was probed too often while failing (contact log %r)" % (name, log[:30])
                 break
@@ -333,6 +334,16 @@ def search(ctx):
         events = history(rng, nserv, rng.randrange(5, 40))
         nh += 1
         judge(cfg, ("u", nserv) if trial % 4 == 3 else nserv, events)
+    # sub-second retry_timeout and a clock that is not on whole seconds: a failing server's key is read every 1/8 s
+    for ra in (1, 2, 3):
+        for ign in (False, True):
+            for start in (0.625, 0.0, 0.875):
+                for rt in (0.5, 0.25, 1.5):
+                    events = [("adv", 100 + start), ("fail", 0, "refused"), ("fail", 1, "refused")]
+                    for _ in range(24):
+                        events += [("op", "get", KEYS[:1]), ("op", "get", KEYS[1:2]), ("adv", 0.125)]
+                    nh += 1
+                    judge((ra, rt, 30, ign), 2, events)
     # blip episodes: a server fails for one call of kind a and answers the retry of kind b, twice (thrice in the thorough tier), for every
     # pair of call kinds - a successful retry must clear the failure record whichever call made it
     kinds = ["get", "set", "set_many", "get_many", "delete"]
